@@ -570,6 +570,102 @@ def float_loop_family(chk):
                mismatches=len(bad), branches=br)
 
 
+def season_family(chk):
+    """Round 6 (harness/w1_util.py season_trace / season_members). Runs that cross a month boundary - entering and leaving
+    the vegetation season for the shipped and for other legal seasons, control boundaries - with the REAL SolarCalcs, the
+    real rural SurfFlux and the real monthly ground-temperature look-up (canyon physics stubbed). Every step is judged
+    against the independent calendar: the season question (does vegetation release heat in the canyon / at the rural site
+    in a sunlit step) must be answered for the month of start + it*dt, the monthly ground and water temperature taken for
+    the month of start + (it-1)*dt."""
+    import s1_util as S
+    import uwgutil as U
+    import w1_util as W1
+    rng = chk.rng
+    thorough = chk.tier == 'thorough'
+    work = chk.work()
+    base = S.load_epw(U.rp(U.EPW_SGP))
+    rows = S.copy_rows(base)
+    # three ground depths whose 36 monthly values are pairwise different
+    rows[3] = S.ground_line(['0.5', '2', '4'], temps=lambda i, m: '%.2f' % (18.3 + 3.1 * i + 0.37 * m))
+    table = [[float('%.2f' % (18.3 + 3.1 * i + 0.37 * m)) + 273.15 for m in range(12)] for i in range(3)]
+    epw = S.save_epw(rows, os.path.join(work, 'season_rural.epw'))
+    bad, nsteps, nsun = [], 0, 0
+    br = {}
+    for (label, vs, ve, M, D, nday, dt) in W1.season_members(rng, not thorough):
+        attrs = dict(month=M, day=D, nday=nday, dtsim=dt, vegstart=vs, vegend=ve,
+                     treecover=rng.choice([0.1, 0.25]), grasscover=rng.choice([0.1, 0.2]))
+        case = {'replay_kind': 'season-family', 'member': label, 'params': attrs, 'rural file': 'Singapore rows; GROUND TEMPERATURES 0.5 / 2 / 4 m with 36 '
+                'different monthly values (18.3 + 3.1 i + 0.37 m)',
+                'how': 'harness/props/c04.py season_family; harness/w1_util.py season_trace (real SolarCalcs / rural SurfFlux / '
+                       'ground-temperature look-up in the real simulate loop, canyon physics stubbed)'}
+        try:
+            model = U.new_model(epw=epw, outdir=work, outname='season.epw', **attrs)
+            with core.quiet():
+                model.generate()
+        except Exception as e:  # noqa: BLE001
+            chk.notes.append('C04 season member %s not generated: %s: %s' % (label, type(e).__name__, str(e)[:100]))
+            continue
+        steps, err = W1.season_trace(model)
+        if err:
+            chk.notes.append('C04 season member %s: simulate raised %s' % (label, err))
+        i1 = model._soilindex1
+        t0 = doy0(M, D) * 86400
+        first_bad = None
+        crossed = set()
+        for (it, mon, day, sec, sunlit, tsens, tlat, solroad, rsol, rlat, deep, water) in steps:
+            t = t0 + it * dt
+            if t >= YEAR:
+                break
+            nsteps += 1
+            tf = true_fields(t)
+            before = true_fields(t - dt)[0]
+            crossed.add(tf[0])
+            season = vs <= tf[0] <= ve
+            problems = []
+            if (mon, day, sec) != tf[:2] + (tf[3],):
+                problems.append(('clock', (mon, day, sec), tf[:2] + (tf[3],)))
+            if sunlit and solroad > 0:
+                nsun += 1
+                if (tsens != 0 or tlat != 0) != season:
+                    problems.append(('season test of SolarCalcs: vegetation releases heat in the canyon (treeSensHeat, '
+                                     'treeLatHeat) iff vegstart <= month <= vegend',
+                                     {'treeSensHeat': tsens, 'treeLatHeat': tlat, 'SolRecRoad': solroad},
+                                     'month %d: %s' % (tf[0], 'in season, non-zero' if season else 'out of season, both 0')))
+            if sunlit and rsol > 0 and model.rural.vegcoverage > 0:
+                if (rlat != 0) != season:
+                    problems.append(('season test of the rural SurfFlux: latent heat of vegetation iff in season',
+                                     {'rural.lat': rlat, 'rural.solRec': rsol},
+                                     'month %d: %s' % (tf[0], 'in season, non-zero' if season else 'out of season, 0')))
+            if (deep, water) != (table[i1][before - 1], table[2][before - 1]):
+                problems.append(('monthly ground / water temperature of the month of start + (it-1)*dt',
+                                 {'forc.deepTemp': deep, 'forc.waterTemp': water},
+                                 {'month looked up': before, 'deepTemp': table[i1][before - 1], 'waterTemp': table[2][before - 1]}))
+            if problems and first_bad is None:
+                first_bad = (it, tf, problems)
+        k = 'crosses a season boundary' if len(set(vs <= m_ <= ve for m_ in crossed)) == 2 else \
+            'crosses a month boundary' if len(crossed) > 1 else 'inside one month'
+        br[k] = br.get(k, 0) + 1
+        if first_bad:
+            it, tf, problems = first_bad
+            bad.append(label)
+            if len(bad) <= 3:
+                chk.violation('impl-violation', 'look-ups for the correct month: %s' % problems[0][0],
+                              case=dict(case, it=it, **{'true calendar at start + it*dt (month, day, doy0, secDay, hour, day type)': list(tf)}),
+                              observed={p[0][:60]: p[1] for p in problems}, expected={p[0][:60]: p[2] for p in problems})
+    chk.direct('calendar-oracle(season / monthly look-ups on month-crossing runs)', nsteps, nsteps,
+               'the real simulate loop with the real SolarCalcs, the real rural SurfFlux and the real ground-temperature '
+               'look-up (canyon / boundary-layer physics stubbed) on runs that start on the last day(s) of a month: the '
+               'shipped season 4..10 entered (31 March) and left (31 October), a random other season (vegstart 2..7, vegend '
+               '8..11) entered and left, a one-month season entered and left within 3 days, a control boundary (thorough: '
+               'all 11 month ends, seasons 1..12 / 12..12 / 1..1 / 2..2 / 6..8 / 3..11, a 5-day and a 33-day run); dt from '
+               '300 .. 1800; tree and grass cover 0.1 .. 0.25; a rural file whose 3 x 12 monthly ground temperatures all '
+               'differ. At every step, against datetime(2023) at start + it*dt: clock month / day / second; in sunlit steps '
+               '(%d here) vegetation heat in the canyon (treeSensHeat, treeLatHeat) and rural latent heat are non-zero exactly '
+               'when vegstart <= true month <= vegend; forc.deepTemp / forc.waterTemp are the table values of the true '
+               'month at start + (it-1)*dt' % nsun,
+               mismatches=len(bad), branches=br)
+
+
 def run(chk):
     chk.proof(MODULE, THEOREMS)
     if chk.tier == 'thorough':
@@ -800,6 +896,9 @@ def run(chk):
     # ---- round 5: the real float loop, all 45 divisors x day offsets ---------------------------
     float_loop_family(chk)
 
+    # ---- round 6: month-crossing runs, season / monthly look-ups judged per step -------------------
+    season_family(chk)
+
     # ---- the property's own oracle on the implementation ----------------------------------------
     for b in oracle_bad[:3]:
         chk.violation('impl-violation', 'SimParam clock vs true calendar (datetime 2023)',
@@ -841,6 +940,10 @@ def replay(chk, path):
     bad = []
     if 'interpreter' in c or 'circumstance' in c:
         circumstances(chk, [], [])          # the circumstance families are re-explored (same seed)
+        bad = [{'tie': w['theorem_or_tie'], 'observed': w['observed'], 'expected': w['expected']}
+               for w in chk.violations[:1]]
+    elif c.get('replay_kind') == 'season-family':
+        season_family(chk)                  # the month-crossing family is re-explored (same seed)
         bad = [{'tie': w['theorem_or_tie'], 'observed': w['observed'], 'expected': w['expected']}
                for w in chk.violations[:1]]
     elif c.get('replay_kind') == 'float-loop':
